@@ -136,6 +136,13 @@ def _exclusion_guards(v: FuncView, a: str, b: str):
                 continue
             if {x for x, _ in nf[1]} == {a, b} and nf != neither:
                 cands.append((n, nf))
+        # nested form: `if a is not None: if b is not None: raise` == the conjunction of the two tests
+        if isinstance(n, ast.If) and n.body and isinstance(n.body[0], ast.If) and n.body[0].body and isinstance(n.body[0].body[0], ast.Raise):
+            o, i = _none_atoms(n.test), _none_atoms(n.body[0].test)
+            if o and i and o[0] == "and" and i[0] == "and":
+                nf = ("and", o[1] | i[1])
+                if {x for x, _ in nf[1]} == {a, b} and nf != neither:
+                    cands.append((n, nf))
     return cands
 
 
